@@ -55,6 +55,7 @@ func init() {
 			checkC19GroupAddGroup(c, budget(c.Tier, 150, 1500))
 			checkC19Counts(c, budget(c.Tier, 200, 5000))
 			checkTagSlicesPrivate(c, budget(c.Tier, 40, 1000), "C19")
+			checkC19SetupErrorKept(c, budget(c.Tier, 60, 1500))
 		}}
 	props["C02"] = propRun{
 		rule: "(a) option tokens in all spellings over ASCII / multi-byte / invalid names and arbitrary values through the splitting functions; (b) metamorphic groups: one generated declaration and surrounding argument vector, one occurrence of one option rendered as -xV, -x=V, -x V, --name=V, --name V and quoted forms; (c) cluster groups -abc [V] / -a -b -c [V] / -ab -c [V] with non-ASCII flags; (d) random whole-parser cases with 40% non-ASCII names; (e) library only: the spellings of an option of a bool-KINDED named type with its own conversion (scalar / pointer; it takes an argument although its kind is bool); (f) shadow stage: below a command that redeclares an outer level's short name with the other arity (outer -v takes an argument, the command's -v is a flag, or the reverse) clusters equal separate flags and -xV, -x=V, -x V, --name=V, --name V are one occurrence; distinct per token / group",
@@ -391,6 +392,7 @@ func init() {
 			checkC18OuterWord(c, budget(c.Tier, 150, 4000))
 			checkC18Shadowed(c, budget(c.Tier, 120, 3000))
 			checkC18HiddenChanged(c, budget(c.Tier, 100, 3000))
+			checkC18ValidatedCompleter(c, budget(c.Tier, 40, 1000))
 		}}
 }
 
